@@ -1,6 +1,7 @@
 package rules
 
 import (
+	"fmt"
 	"strings"
 
 	"golang.org/x/tools/go/ssa"
@@ -213,7 +214,23 @@ func runC10(c *eng.Ctx) {
 			c.Check("R4", "path-is-target", r.Pos(), strings.HasSuffix(eng.Render(res[0]), ".target(p0, p1, p2)#0"), "the provided path is the content-addressed name for (path, digest)", eng.Render(res[0]))
 		}
 	}
-	c.Floor("R4", 10)
+	// The content address is a function of the digest on every way it is
+	// produced: no return of Store.target yields a name that was not computed
+	// from the digest argument of THIS call (a remembered result for the same
+	// path would name other content).
+	if fn := c.MustFunc("R4", storePkg, "Store.target"); fn != nil && len(fn.Params) == 3 {
+		digest := fn.Params[2]
+		for k, r := range eng.Returns(fn) {
+			res := eng.RetResults(r)
+			for j, what := range []string{"name", "prefix"} {
+				if j >= len(res) {
+					continue
+				}
+				c.Check("R4", fmt.Sprintf("target-%s-depends-on-digest#%d", what, k+1), r.Pos(), eng.DependsOnAll(res[j], digest), "the storage "+what+" returned is computed from this call's digest on every path", eng.Render(res[j]))
+			}
+		}
+	}
+	c.Floor("R4", 12)
 
 	// R5.
 	if fn := c.MustFunc("R5", corePkg, "transitioner.findAndMoveStagedFileIntoPlace"); fn != nil {
